@@ -392,6 +392,12 @@ func (g *gen) structField(depth int) int {
 	if g.r.Intn(6) == 0 && !g.o.Wire {
 		sp.Async = true // Async(Struct[T]()) has no effect on semantics
 	}
+	if g.r.Intn(5) == 0 && !g.o.Wire {
+		// the expansion names its struct (or pointer) through an alias
+		sp.TypeAlias = g.typeName() + "Ref"
+		g.s.ExtraDecl += fmt.Sprintf("type %s = %s\n", sp.TypeAlias, g.s.Expr(use, ""))
+		g.feature("struct-expansion-named-through-alias")
+	}
 	g.addProv(sp)
 	var fts []int
 	for _, f := range g.s.Types[st].Fields {
